@@ -283,6 +283,10 @@ func runC14(c *Ctx) {
 				switch {
 				case alt == "param#0":
 				case strings.HasPrefix(alt, "global:spec/chord.errorStrMap["):
+				case alt == "nil" && em.FactsAt(r).Equal(func(x, y ast.Expr) bool {
+					return em.Prov(x) == "param#0" && isNilIdent(em.Info, y)
+				}):
+					// the argument is known to be nil here: `return nil` returns the argument
 				default:
 					okSrc = false
 					why = alt
